@@ -167,9 +167,9 @@ def evaluate(case: Dict[str, Any], base: Any, ctx: Any = None) -> List[Tuple[str
             a, b = edits[idx % len(edits)] if edits else (0, 0)
             todo = []  # type: List[Tuple[str, Any, bool]]
             pos = positions(spec, prop_refs, cp_refs, neutral)
-            if pos:
-                ps = pos[a % len(pos)]
-                ce = constraint_edit(spec, ps, doc, b)
+            for k in range(min(3, len(pos))):
+                ps = pos[(a + k) % len(pos)]
+                ce = constraint_edit(spec, ps, doc, b + k)
                 if ce is not None:
                     if ce[1] is None:
                         if ctx is not None:
